@@ -20,6 +20,10 @@ func (r *Rng) measureOrd(scale int) float64 {
 		return (r.Float64() - 0.5) * 1e9
 	case 3:
 		return math.Ldexp(r.Float64()-0.5, 200)
+	case 5:
+		// very small figures (whole numbers times 2^-490 … 2^-500): squares and products are still
+		// normal numbers, nothing underflows
+		return math.Ldexp(float64(r.Intn(2001)-1000), -490-r.Intn(11))
 	default:
 		return 1e6 + r.Float64() // far from the origin, tiny extent
 	}
@@ -108,7 +112,7 @@ func genC09(r *Rng, e *Emitter, n int) {
 	for i := 0; i < n; i++ {
 		l := layouts[r.Intn(len(layouts))]
 		s := l.Stride()
-		scale := r.Intn(5)
+		scale := r.Intn(6)
 		e.tally(fmt.Sprintf("layout=%d", int(l)))
 		e.tally(fmt.Sprintf("scale=%d", scale))
 		switch r.Intn(7) {
